@@ -145,6 +145,10 @@ type vForgetAuth struct {
 	a, b  []string
 }
 
+func newVForgetAuth(id string) *vForgetAuth { return &vForgetAuth{id: id, realm: "r"} }
+
+var _ = newVForgetAuth
+
 func (a *vForgetAuth) Execute() error { return nil }
 func (a *vForgetAuth) WithConfig(conf map[string]any) (Authenticator, error) {
 	return &vForgetAuth{realm: "x", a: a.b, b: a.b}, nil
@@ -162,4 +166,19 @@ type vSubSliceAuth struct {
 func (a *vSubSliceAuth) Execute() error { return nil }
 func (a *vSubSliceAuth) WithConfig(conf map[string]any) (Authenticator, error) {
 	return &vSubSliceAuth{s: a.s[:len(conf)], first: a.all[0], all: a.all}, nil
+}
+
+// ---- a field that NO code of the module ever sets is zero in the receiver too: not setting it is harmless
+type vNeverSetAuth struct {
+	id   string
+	note *int
+}
+
+func newVNeverSetAuth(id string) *vNeverSetAuth { return &vNeverSetAuth{id: id} }
+
+var _ = newVNeverSetAuth
+
+func (a *vNeverSetAuth) Execute() error { return nil }
+func (a *vNeverSetAuth) WithConfig(conf map[string]any) (Authenticator, error) {
+	return &vNeverSetAuth{id: a.id}, nil
 }
